@@ -321,6 +321,12 @@ mut("c18-path-add-links-operand", "C18", "path + segment links the operand itsel
         return NotImplemented
 
     def __radd__(self, other):''')
+mut("c18-matrix-shares-length", "C18", "a matrix copy keeps the source's Length objects of an unrendered translation (the pinned tree's defect)",
+'''        if isinstance(self.e, Length):
+            self.e = copy(self.e)''',
+'''        if isinstance(self.e, Length) and False:
+            self.e = copy(self.e)''')
+
 # ---------------- C10
 mut("c10-only-valueerror-guarded", "C10", "element construction is guarded for ValueError only (a bad transform raises IndexError out of parse)",
 '''                except (
